@@ -73,21 +73,16 @@ def rule_r1(chk):
         except (fin.NotFinite, StopIteration) as e:
             chk.undecided("C01-R1", f"fords.solutions.Solution.from_system[predicates]{tag}", str(e), m.loc(fs))
     # classifier branch <-> class name
-    body = strip_docstring(cls.body)
-    branches = []
-    node = next((s for s in body if isinstance(s, ast.If)), None)
-    while isinstance(node, ast.If):
-        branches.append((squash(node.test), squash(node.body[0].value) if isinstance(node.body[0], ast.Return) else None))
-        nxt = node.orelse
-        if len(nxt) == 1 and isinstance(nxt[0], ast.If):
-            node = nxt[0]
-        else:
-            branches.append(("else", squash(nxt[0].value) if nxt and isinstance(nxt[0], ast.Return) else None))
-            node = None
+    from ..core import decision_list
+    dl = decision_list(cls.body)
     ps = params(cls)
-    want = [(f"{ps[1]}(abs_eigenvalue)", "EigenvalueKind.STABLE"), (f"{ps[2]}(abs_eigenvalue)", "EigenvalueKind.UNIT_ROOT"), ("else", "EigenvalueKind.UNSTABLE")]
-    ok = branches == want and "stable" in ps[1] and "unit" in ps[2]
-    chk.ob("C01-R1", "fords.solutions._classify_eigenvalue_stability[branches]", ok, f"branches {branches}", m.loc(cls))
+    if dl is None:
+        chk.undecided("C01-R1", "fords.solutions._classify_eigenvalue_stability[branches]", "not a decision list of tests and returns", m.loc(cls))
+    else:
+        branches = [(squash(t) if t is not None else "else", squash(v)) for t, v in dl]
+        want = [(f"{ps[1]}(abs_eigenvalue)", "EigenvalueKind.STABLE"), (f"{ps[2]}(abs_eigenvalue)", "EigenvalueKind.UNIT_ROOT"), ("else", "EigenvalueKind.UNSTABLE")]
+        ok = branches == want and "stable" in ps[1] and "unit" in ps[2]
+        chk.ob("C01-R1", "fords.solutions._classify_eigenvalue_stability[branches]", ok, f"branches {branches}", m.loc(cls))
     ae = assign_value(cls, "abs_eigenvalue")
     chk.ob("C01-R1", "fords.solutions._classify_eigenvalue_stability[modulus]", squash(ae) in (f"_np.abs({ps[0]})", f"abs({ps[0]})") if ae is not None else None,
            "predicates are applied to the modulus of the eigenvalue", m.loc(cls))
